@@ -50,7 +50,7 @@ def recipes(ctx: Ctx):
         i += 1
     depth = 3 if ctx.thorough else 2
     for ops in K.exhaustive_histories(depth):
-        out.append((f"e{i}", {"ops": ops, "cbs": ["both", "sync", "async"][i % 3]}))
+        out.append((f"e{i}", {"ops": ops, "cbs": ["both", "sync", "async"][i % 3], "target": K.TARGETS[(i // 3) % 8] if (i // 3) % 8 < 4 else None}))
         i += 1
     for nd in ([70, 130] if not ctx.thorough else [70, 130, 200, 300, 90, 150, 65, 100]):
         out.append((f"m{i}", {"ops": K.many_devices_history(ctx.rng, nd)}))
@@ -68,7 +68,7 @@ def recipes(ctx: Ctx):
             ops = K.rand_history(ctx.rng, n, p_invalid=0.35, p_purge=0.25)
         else:
             ops = K.rand_history(ctx.rng, n)
-        out.append((f"r{i}", {"ops": ops, "cbs": ctx.rng.choice(["both", "both", "sync", "async"])}))
+        out.append((f"r{i}", {"ops": ops, "cbs": ctx.rng.choice(["both", "both", "sync", "async"]), "target": K.rand_target(ctx.rng)}))
         i += 1
     return out
 
